@@ -19,7 +19,7 @@ def profile() -> Dict:
 
     return {
         "ops": list(ops.C13_OPS) + list(ops.C13_QUERY_OPS),
-        "lengths": [6, 10, 16, 24, 30],
+        "lengths": [8, 12, 18, 24, 30, 30],
         "weights": {"compose": 2.0, "compose_tactics": 2.0, "quotient": 1.5, "quotient_tactics": 2.0, "elim_refine": 2.5, "elim_relax": 2.0,
                     "tl_rename_variable": 1.5, "tl_simplify": 1.5, "parse": 1.5, "from_strings": 1.2, "merge": 1.2,
                     "contains_behavior": 0.5, "evaluate": 0.5, "is_empty": 0.5, "contains_environment": 0.4, "contains_implementation": 0.4,
@@ -80,6 +80,7 @@ def run(tier: str, runs_override: Optional[int] = None) -> int:
             "sessions": tot["runs"],
             "steps": st.get("steps", 0),
             "second_calls": st.get("second_calls", 0),
+            "late_repeats_of_an_earlier_call": st.get("late_repeats", 0),
             "results_vandalised": st.get("results_vandalised", 0),
             "pristine_interpreter_replays": st.get("pristine_replays", 0),
             "pristine_timeouts": st.get("pristine_timeouts", 0),
